@@ -2,6 +2,7 @@ import PoxModel.Base.Proto
 import PoxModel.Model.Checksum
 import PoxModel.Model.PacketHdr
 import PoxModel.Model.PacketExt
+import PoxModel.Model.IPv6Ext
 open Pox Pox.Proto Pox.Checksum Pox.Packet
 
 /-! Line-protocol driver for C14.
@@ -15,6 +16,10 @@ open Pox Pox.Proto Pox.Checksum Pox.Packet
       → {"raw":hex,"parsed":[…],"repack":hex}   (model-packed bytes, damaged, parsed: the malformed-input stream)
   {"op":"parse","top":…,"raw":hex} → {"parsed":[…],"repack":hex}
   {"op":"seq","steps":[request,…]} → {"steps":[answer,…]}
+  {"op":"v6ext","exts":[{"t":type,"nh":n,"plen":n,"body":hex},…],"nht":n,"payload":hex,"trailer":hex}
+      → {"packed":hex|null, "res":"ok"|"unparsed", "exts":[…], "nht":n, "payload":hex|null}
+        (Model/IPv6Ext.lean: the chain serialised as ipv6.hdr does, and the extension-header loop of ipv6.parse run on
+         packed ++ payload ++ trailer with payload_length = |packed| + |payload|)
 -/
 
 def optJ : TcpOpt → J
@@ -472,6 +477,25 @@ def handle1 (j : J) : Except String J := do
   else if op = "parse" then
     let k ← kindOf (← j.string "top")
     pure (J.mk (← parsedAndRepack k (← j.bytes "raw")))
+  else if op = "v6ext" then
+    let exts ← (← j.array "exts").mapM (fun (e : J) => do
+      pure (⟨← e.nat "t", ← e.nat "nh", ← e.nat "plen", ← e.bytes "body"⟩ : IPv6Ext.Ext))
+    let nht ← j.nat "nht"
+    let payload ← j.bytes "payload"
+    let trailer ← j.bytes "trailer"
+    let extJ := fun (e : IPv6Ext.Ext) => J.mk [("t", J.ofNat e.ty), ("nh", J.ofNat e.nh), ("plen", J.ofNat e.plen), ("body", J.ofBytes e.body)]
+    match IPv6Ext.packExts exts with
+    | none => pure (J.mk [("packed", J.null)])
+    | some packed =>
+      let rest := packed ++ payload ++ trailer
+      let r := IPv6Ext.parse rest nht (packed.length + payload.length)
+      match r with
+      | .ok es t _ _ =>
+        pure (J.mk [("packed", J.ofBytes packed), ("res", J.str "ok"), ("exts", J.arr (es.map extJ)), ("nht", J.ofNat t),
+                    ("payload", match IPv6Ext.payloadOf rest r with | some b => J.ofBytes b | none => J.null)])
+      | .incomplete es | .truncated es =>
+        pure (J.mk [("packed", J.ofBytes packed), ("res", J.str "unparsed"), ("exts", J.arr (es.map extJ))])
+      | .fuel => throw "model fuel exhausted"
   else throw s!"unknown op {op}"
 
 /-- {"op":"seq","steps":[request,…]} → {"steps":[answer,…]}: the answers a fresh process would give to each request of a call
